@@ -72,6 +72,18 @@ def worker(payload):
         for k, v in d["flags"].items():
             if v:
                 res[k] = res.get(k, 0) + 1
+    # premises of the whole-run theorems (C01_run / C03_run) evaluated on this configuration's initialised model
+    try:
+        import hyp_check
+        m = sim.build_model(cfg); m._initialize()
+        failed = hyp_check.check(m)
+        res["premises_checked"] = 1
+        res["premises_all_hold"] = int(not [f for f in failed if f != "HDap_window"])
+        res["premises_hold_incl_window_bound"] = int(not failed)
+        res["water_table_runs"] = int(int(m._param_struct.water_table) == 1)
+        res["premise_failures"] = sorted(set(f.split(".")[0] if f.startswith("crop") or f.startswith("fallow") else f for f in failed))
+    except Exception:
+        pass
     lines, exp = sim_lines(o)
     if lines is None or exp is None:
         res["skipped"] = 1
@@ -93,7 +105,7 @@ def run_l3(nsims=None, name="runc", timeout=600, **force):
         nsims = 160 if TIER == "quick" else 800
     cfgs = dayc.matrix_configs(nsims, name, **force)
     res = sim.pmap(worker, [{"cfg": c} for c in cfgs], timeout=timeout)
-    tot = collections.Counter(); errs = collections.Counter(); meth = collections.Counter(); herr = []; bad = []
+    tot = collections.Counter(); errs = collections.Counter(); meth = collections.Counter(); herr = []; bad = []; prem = collections.Counter()
     for c, r in zip(cfgs, res):
         if r.get("hang") or r.get("harness_error"):
             herr.append(r.get("harness_error", "hang")[-600:]); continue
@@ -105,9 +117,12 @@ def run_l3(nsims=None, name="runc", timeout=600, **force):
             errs["%s@%s" % (r["error"]["type"], r["error"]["origin"])] += 1
         if r.get("first_bad"):
             bad.append(r["first_bad"])
+        for f in r.get("premise_failures", []):
+            prem[f] += 1
     runs = tot["agree"] + tot["disagree"]
     cov = {"simulations": len(cfgs), "whole_runs_compared": runs, "by_irrigation_method": dict(meth), "implementation_exceptions": dict(errs),
-           "harness_errors": herr[:3], **{k: tot[k] for k in tot}}
+           "harness_errors": herr[:3],
+           "premises_of_the_whole_run_theorems_that_fail_on_some_configuration": dict(prem), **{k: tot[k] for k in tot}}
     return {"suite": name, "cases": runs, "distinct": runs, "agree": tot["agree"], "disagree": tot["disagree"] + len(herr),
             "by_function": {"run_till_c": runs}, "coverage": cov, "error": ("harness errors: %d" % len(herr)) if herr else None,
             "total_s": round(time.time() - t0, 1), "mismatches": bad[:10], "samples": [{"cfg": cfgs[0]}] if cfgs else []}
